@@ -158,8 +158,8 @@ type expEnv struct {
 	Exec    *incremental.Executor
 	// one Workspace object per target list: queries.Link's key contains the
 	// Workspace by identity, so a long-lived client must reuse it to be cached
-	ws     source.Workspace
-	wsKey  string
+	ws    source.Workspace
+	wsKey string
 }
 
 func newExpEnv(files map[string]string, par int) *expEnv {
@@ -387,12 +387,12 @@ func sortedKeys[V any](m map[string]V) []string {
 // normMsg turns a diagnostic/error message into a class: quoted names,
 // numbers and positions are replaced by placeholders.
 var (
-	reQuoted = regexp.MustCompile("`[^`]*`|\"[^\"]*\"|'[^']*'")
-	reDotted = regexp.MustCompile(`\.?\b[A-Za-z_][A-Za-z0-9_]*(\.[A-Za-z_][A-Za-z0-9_]*)+\b`)
+	reQuoted  = regexp.MustCompile("`[^`]*`|\"[^\"]*\"|'[^']*'")
+	reDotted  = regexp.MustCompile(`\.?\b[A-Za-z_][A-Za-z0-9_]*(\.[A-Za-z_][A-Za-z0-9_]*)+\b`)
 	reDigitID = regexp.MustCompile(`\b[A-Za-z_]+[0-9][A-Za-z0-9_]*\b`)
 	reSubject = regexp.MustCompile(`^(field|extension|message|enum|enum value|service|method|oneof|file|option|syntax error) [^ :]+:`)
-	reNumber = regexp.MustCompile(`-?\b\d+(\.\d+)?\b`)
-	rePos    = regexp.MustCompile(`^[^ ]+\.proto:\d+:\d+: `)
+	reNumber  = regexp.MustCompile(`-?\b\d+(\.\d+)?\b`)
+	rePos     = regexp.MustCompile(`^[^ ]+\.proto:\d+:\d+: `)
 )
 
 func normMsg(s string) string {
